@@ -46,6 +46,7 @@ from_data is decoded; C15.4 get_with_metadata decodes by the stored format;
 C15.5 an empty list clears every schema and the DN tenant order is reversed on
 both sides. Fourth round: C15.5 the LDAP update diff filters a value only when
 it is None.
+Sweep: C15.2 a value the base-n encoder special-cases is written as its own digit; C15.3 the base decoder hands every field under its own name to the decoder of the class the type tag selects and returns what that decoder built, and a split is decoded by exact unpacking only when every field is numeric.
 Does NOT decide round-trip equality and injectivity over the value domains
 (type coercions, port 0 vs wildcard, None vs empty list).
 """
@@ -1224,4 +1225,32 @@ REFACTORS = [
     _PASSTHROUGH_FILE_PATTERN.format(
         # chain
         chain=r'(?P<chain>(?:\\w{2,30}))',""")]),
+]
+
+# sweep-driven clauses (DESIGN 9.7)
+MUTANTS += [
+    ('base-n-zero-digit', [(_U, """    if num == 0:
+        return alphabet[0]
+""", """    if num == 0:
+        return alphabet[1]
+""")], 'C15.2'),
+    ('dispatcher-drops-event', [(_EA, """            event = None
+
+        return event
+
+    def to_data(self):""", """            event = None
+
+        return None
+
+    def to_data(self):""")], 'C15.3'),
+    ('dispatcher-swaps-fields', [(_EA, """                event_data=event_data,
+                payload=payload
+            )
+        except Exception:""", """                event_data=event_type,
+                payload=payload
+            )
+        except Exception:""")], 'C15.3'),
+    ('free-text-split-unbounded', [(_EA, """            where, why = event_data.split(':', 1)
+""", """            where, why = event_data.split(':')
+""")], 'C15.3'),
 ]
